@@ -92,6 +92,20 @@ def classes():
         # true overloads: must be rejected as callback target
         _meth("over", args=[("int", "a")]),
         _meth("over", args=[("QString", "a")]),
+        # deep(int a, QString b = QString(), bool c = false): three entries, one signal
+        _meth("deep", args=[("int", "a")]),
+        _meth("deep", args=[("int", "a"), ("QString", "b")]),
+        _meth("deep", args=[("int", "a"), ("QString", "b"), ("bool", "c")]),
+        # families that share a prefix but then diverge: true overloads
+        _meth("mixed", args=[("int", "a")]),
+        _meth("mixed", args=[("int", "a"), ("bool", "b")]),
+        _meth("mixed", args=[("int", "a"), ("QString", "b")]),
+        _meth("mixed2"),
+        _meth("mixed2", args=[("int", "a")]),
+        _meth("mixed2", args=[("QString", "a")]),
+        _meth("mixed3", args=[("int", "a")]),
+        _meth("mixed3", args=[("int", "a"), ("int", "b")]),
+        _meth("mixed3", args=[("int", "a"), ("QString", "b"), ("bool", "c")]),
     ]
     slots = []
     for (name, ty, read, write, notify, constant) in VF_PROPS:
